@@ -14,6 +14,7 @@ import (
 	"testing/synctest"
 
 	"github.com/pion/dtls/v3/internal/verifshim/vsched"
+	"github.com/pion/dtls/v3/zzverif/run"
 	"github.com/pion/dtls/v3/zzverif/world"
 )
 
@@ -145,6 +146,9 @@ func Explore(bound, maxExec int, scenario func(x *Exec) (string, string)) Result
 		x := &Exec{prefix: prefix}
 		viol, outcome := scenario(x)
 		res.Executions++
+		if res.Executions%25 == 0 {
+			run.Heartbeat()
+		}
 		res.Outcomes[outcome]++
 		if x.Steps > res.MaxSteps {
 			res.MaxSteps = x.Steps
